@@ -219,6 +219,10 @@ func (e *Engine) episode(ops []string, res *report.Result) *report.Failure {
 	var apiBusy atomic.Int32
 	everTimeout := map[string]bool{}
 	everLimit := map[string]bool{}
+	// a probe is valid only as generated: `mark`, then the same payloads on both links and
+	// nothing but clock advances in between (the minimiser must not shrink it into something else)
+	probeMarked := false
+	probeSrc := map[string][]string{}
 	toxDir := map[string]string{}
 	toxType := map[string]string{}
 	var result *report.Failure
@@ -259,6 +263,9 @@ func (e *Engine) episode(ops []string, res *report.Result) *report.Failure {
 				proxy.Toxics.StartLink(srv, w[1], source{l}, sink{l}, d)
 			}
 		case "src":
+			if probeMarked {
+				probeSrc[w[1]] = append(probeSrc[w[1]], w[2])
+			}
 			l := links[w[1]]
 			n, _ := strconv.Atoi(w[2])
 			data := make([]byte, n)
@@ -352,6 +359,10 @@ func (e *Engine) episode(ops []string, res *report.Result) *report.Failure {
 			exec = func() { time.Sleep(time.Duration(d)) }
 		case "mark":
 			// harness only: remember where every sink's log stands (start of a probe)
+			// … and a probe only makes sense on links that are at rest (no chunk asleep in a toxic,
+			// none waiting to be taken): a backlog on the old link is not a difference of toxics
+			probeMarked = !strings.Contains(lastPcs, "nap") && !strings.Contains(lastPcs, "out") && !strings.Contains(lastPcs, "flush")
+			probeSrc = map[string][]string{}
 			for _, l := range links {
 				l.mu.Lock()
 				l.markLen = len(l.hist)
@@ -367,6 +378,12 @@ func (e *Engine) episode(ops []string, res *report.Result) *report.Failure {
 			if a == nil || z == nil || apiBusy.Load() > 0 {
 				continue
 			}
+			if !probeMarked || len(probeSrc[w[1]]) == 0 || strings.Join(probeSrc[w[1]], ",") != strings.Join(probeSrc[w[2]], ",") {
+				res.Count("skipped:probe-not-as-generated")
+				probeMarked = false
+				continue
+			}
+			probeMarked = false
 			a.mu.Lock()
 			z.mu.Lock()
 			okA := !a.closed && !a.eof && a.ready && !a.fail
